@@ -101,13 +101,19 @@ impl C18 {
                 }
                 Ok(Ok(())) => {}
             }
-            let originals = selected_texts(&store);
+            let originals = match catch(|| selected_texts(&store)) {
+                Ok(o) => o,
+                Err(p) => {
+                    fail("after-protect", &format!("text-panic:{}", msg_class(&p)), "-", "reading the text of the annotations panicked".into(), Value::Null);
+                    continue;
+                }
+            };
             // (1) valid right after protecting
             let mut ok = true;
             let validate_all = |s: &AnnotationStore, phase: &str, ok: &mut bool| {
                 for a in s.annotations() {
                     let name = a.id().map(|x| x.to_string()).unwrap_or_else(|| format!("#{}", a.handle().as_usize()));
-                    let has_text = !a.text_join("").is_empty();
+                    let has_text = catch(|| !a.text_join("").is_empty()).unwrap_or(true);
                     self.validations.fetch_add(1, Ordering::Relaxed);
                     let r = catch(|| a.validate_text());
                     let kind = format!("{:?}", a.as_ref().target().kind());
@@ -169,7 +175,13 @@ impl C18 {
                         Ok(Ok(s)) => s,
                         _ => continue, // an offset fell out of range: the store does not load, nothing to validate
                     };
-                    let now = selected_texts(&re);
+                    let now = match catch(|| selected_texts(&re)) {
+                        Ok(n) => n,
+                        Err(p) => {
+                            fail(&format!("edit:{}", edit.kind), &format!("text-panic:{}", msg_class(&p)), "-", format!("resource {} text {:?} -> {:?}: reading the text of the annotations of the reloaded store panicked", rid, text, newtext), json!({"resource": rid, "kind": edit.kind, "pos": edit.pos, "new_text": newtext}));
+                            continue;
+                        }
+                    };
                     if now.len() != originals.len() {
                         continue;
                     }
